@@ -80,6 +80,19 @@ def _worker(st, ctx):
             if sum(val0[i]) and abs(float(np.sum(rs.array[i])) - (1 - 6e-6)) > 1e-12:
                 f.append(("mapping", "after %s an input total of 1 - 6e-6 became %.12f" % (st["maps"], float(np.sum(rs.array[i])))))
                 return out
+    if typ == "probability" and st["maps"] and not st["rej"]:
+        # the small-probability regime (heavy loss, many photons, an unnormalised post-selected table): the same content times 1e-13 and times
+        # 1e-30; mappings are linear, so every mapped value is the sum of its pre-images to RELATIVE accuracy - nothing is "numerical noise"
+        for tiny in (1e-13, 1e-30):
+            rt = SimulationResult(np.array(val0, dtype=float) * tiny, typ, inputs=ins, outputs=outs0)
+            for kind, inv in st["maps"]:
+                rt = rt.apply_threshold_mapping(invert=inv) if kind == "threshold" else rt.apply_parity_mapping(invert=inv)
+            for i in range(len(ins)):
+                want_t = float(sum(val0[i])) * tiny
+                got_t = float(np.sum(rt.array[i]))
+                if abs(got_t - want_t) > 1e-9 * abs(want_t):
+                    f.append(("mapping", "values of order %g: after %s the total of input %d is %.6g, the sum of its entries before was %.6g" % (tiny, st["maps"], i, got_t, want_t)))
+                    return out
     for n_map, (kind, inv) in enumerate(st["maps"]):
         if (len(st["ins"]) + len(st["outs0"]) + n_map) % 3 == 1:
             inv = np.bool_(inv)              # the flag as a caller may hold it (result of a numpy comparison)
